@@ -183,11 +183,32 @@ def build(prop_file, extract_files=(), components=()):
         return build_locked(prop_file, extract_files, components)
 
 
+def dep_closure(vfiles):
+    """Transitive .v dependencies (inside coq/) of the given .v files, via coqdep."""
+    seen, todo = set(), list(vfiles)
+    while todo:
+        f = todo.pop()
+        if f in seen or not os.path.exists(os.path.join(COQ, f)):
+            continue
+        seen.add(f)
+        rc, out = sh(['coqdep', '-Q', '.', 'S3V', f], 60, cwd=COQ)
+        for m in re.finditer(r'(\S+)\.vo\b', out.split(':', 1)[1] if ':' in out else ''):
+            d = m.group(1) + '.v'
+            if not d.startswith('/') and d not in seen:
+                todo.append(d)
+    return seen
+
+
 def build_locked(prop_file, extract_files=(), components=()):
-    bad = gate()
-    if bad:
-        raise BuildBroken('gate: forbidden construct in the Coq development', '\n'.join(bad))
     log = regen()
+    ensure_makefile()
+    mine = dep_closure([f'props/{prop_file}.v'] + [f'extract/{e}.v' for e in extract_files])
+    bad = gate()
+    hits = [b for b in bad if any(b.startswith('coq/' + f + ':') for f in mine) or b.startswith('coq/_CoqProject')]
+    if hits:
+        raise BuildBroken('gate: forbidden construct in the Coq files this property depends on', '\n'.join(hits))
+    if bad:
+        log += ' [gate: unrelated files still carry forbidden constructs: ' + '; '.join(bad[:4]) + ']'
     targets = [f'props/{prop_file}.vo'] + [f'extract/{e}.vo' for e in extract_files]
     coq_make(targets)
     for c in components:
